@@ -29,6 +29,12 @@ def run(ctx):
     P = ctx.P
     pinned = spec("pinned.json")
     check_tag_table(ctx, P)
+    # a tag separates two uses only if it takes part every time: nothing on the way from the scheme entry points to the
+    # hash keeps a result from an earlier call (a memo of hash_to_point keyed on the message alone hands a point computed
+    # under another tag to the second scheme)
+    from . import flow as F_det
+
+    F_det.check_no_effects(ctx, "E7.deterministic", P, ["SecretKey<C>::sign", "Signature<C>::verify", "ProofOfPossession<C>::verify", "SecretKey<C>::proof_of_possession", "SecretKeyShare<C>::sign", "SignatureShare<C>::verify", "MultiSignature<C>::verify", "AggregateSignature<C>::verify"])
     # 2. arm purity on all dispatch sites
     n_sites, n_arms = check_arm_purity(ctx, "E2-A", P)
     ctx.floor("E2-A", "scheme dispatch switches", n_sites, 40)
